@@ -318,8 +318,15 @@ def confirm_replay(binary, cfg, tmp, path, tier, want_class, want_site):
     if rf.get("mode") == "death":
         # Crash/hang: the replay is confirmed if the process dies again at the
         # same place of the code under test.
-        died, site = replay_dies(binary, cfg, tmp, path, tier, want_class)
-        return died and site == want_site, died and site == want_site, "process died at %s" % site if died else "process survived"
+        # Whether corrupted memory kills the process can depend on the heap
+        # layout: a few attempts.
+        detail = ""
+        for i in range(3):
+            died, site = replay_dies(binary, cfg, tmp, path, tier, want_class)
+            if died and site == want_site:
+                return True, True, "process died at %s (attempt %d)" % (site, i + 1)
+            detail = "process died at %s" % site if died else "process survived"
+        return False, False, detail
     attempts = 5 if want_class == "race" else 2
     if rf.get("nondeterministic"):
         # The run contains a select with two ready cases, constructed on
@@ -520,7 +527,7 @@ def drive(args, check_id, cfg, tier, seed, repo, tmp, t_start):
                 rf.update(mode="death", tape=tape, original_tape_len=len(tape), shrink_executions=0)
                 if klass == "crash" and confirmed_deaths == 0:
                     best, used = shrink_death(binary, cfg, tmp, tape, tier, klass, site, 40)
-                    rf.update(tape=best, shrink_executions=used)
+                    rf.update(tape=best, shrink_executions=used, unshrunk_tape=tape)
             with open(rpath, "w") as f:
                 json.dump(rf, f, indent=1)
             confirmed_deaths += 1
@@ -625,6 +632,15 @@ def drive(args, check_id, cfg, tier, seed, repo, tmp, t_start):
                     json.dump(rf, f, indent=1)
                 ok, exact, detail2 = confirm_replay(binary, cfg, tmp, dst, tier, v["class"], v["site"])
                 detail += "; unshrunk tape: " + detail2
+            if not ok and rf.get("mode") == "death" and "seed" in rf and "run" in rf:
+                # Last resort for a death whose reproduction depends on the
+                # heap layout: replay by seed and run index, as it was found.
+                rf["mode"] = "seed"
+                rf["note"] = "replayed by seed and run index: the recorded tape did not kill a fresh process again"
+                with open(dst, "w") as f:
+                    json.dump(rf, f, indent=1)
+                ok, exact, detail3 = confirm_replay(binary, cfg, tmp, dst, tier, v["class"], v["site"])
+                detail += "; by seed: " + detail3
         if not ok:
             harness_errors.append("violation %s found but its replay file %s does not reproduce it (%s): %s" % (
                 sig, dst, detail, v["message"][:1500]))
